@@ -625,11 +625,17 @@ def check_c13(run: Run, prog: Program) -> None:
         "decides ONE clause of the last sentence ('area and volume return ... the textbook measures'): Circle.area, Sphere.volume and Sphere.area, "
         "normalised as monomials in pi, the radius and the dimension (helpers such as _alpha inlined), equal pi r^2, the volume and the surface of "
         "the n-ball; and every number a quadric class returns (radius, area, volume, angles ...) has homogeneity degree 0 in the matrix and in "
-        "every argument (E5) - necessary for 'return the parameters'. NOT decided: everything about the constructors (from_points, from_tangent, from_foci, from_crossratio, the loci of "
-        "Circle/Ellipse/Sphere/Cone/Cylinder), center, radius and foci - those are numeric identities between a constructor's matrix and an accessor."
+        "every argument (E5) - necessary for 'return the parameters'. (E19) The loci: the matrix that Circle, Ellipse, Sphere (dimension 2 and 3) and Cone (axis parallel to z, "
+        "finite height and the cylinder limit) hand to QuadricTensor.__init__, read off the constructor as a table of polynomials in the centre coordinates and radii, "
+        "is proportional entry by entry to the matrix of the Cartesian locus. NOT decided: from_points, from_tangent, from_foci, from_crossratio, the rotation of a cone "
+        "whose axis is not parallel to z, center, radius and foci - those are numeric identities between a constructor's matrix and an accessor."
     )
     n = polyform.rule_measures(run, prog)
     run.floor("measure formulas", n, 2)
+    from geolint import quadforms
+
+    nq = quadforms.rule_quadrics(run, prog)
+    run.floor("parametrised quadric constructors read (cases found, decided or not)", nq, 5)
     # the accessors and measures of a quadric are functions of the quadric, not of the scale of its matrix (degree 0, E5)
     from geolint import homog
 
